@@ -107,12 +107,13 @@ def run(tape, scenario):
     # bias the master's address draws towards collisions: with addresses some terminal
     # holds or held, and with addresses drawn before (reserved, maybe not yet written)
     drawn = []
+    collide_rate = [40]
 
     def collide(a, b):
         if (a, b) != (lo, hi):
             return None
         pool = sorted({x for x in held_ever if a <= x <= b} | set(drawn))
-        if pool and tape.chance("c25/collide", 40):
+        if pool and tape.chance("c25/collide", collide_rate[0]):
             return tape.pick("c25/collide-which", pool)
         v = a + tape.draw("c25/address", b - a + 1)
         drawn.append(v)
@@ -188,6 +189,25 @@ def run(tape, scenario):
             jobs.append(scan())
         # (with send faults single jobs fail with OSError: the others go on)
         await asyncio.wait_for(asyncio.gather(*jobs, return_exceptions=send_faults), 20)
+        if len(objects) >= 2 and not parallel and not send_faults and not high_range \
+                and tape.chance("c25/range-nearly-used-up", 15):
+            # a long-lived master: its terminals are initialised again and again (each time
+            # a new address; the old ones stay reserved) until the range is used up but
+            # for a few addresses; then two of them are initialised at once, with draws
+            # that keep hitting reserved addresses
+            ks = sorted(objects)
+            for _ in range(200):
+                if size - len(ec.used_addresses) <= 3:
+                    break
+                k = tape.pick("c25/again-which", ks)
+                await asyncio.wait_for(objects[k].initialize(relative=-k), 5)
+            if size - len(ec.used_addresses) <= 3:
+                world.count("c25/two-initialisations-with-the-range-nearly-used-up")
+                collide_rate[0] = tape.pick("c25/collide-rate-when-full", [90, 97, 99])
+                two = tape.shuffle("c25/last-two", ks)[:2]
+                await asyncio.wait_for(asyncio.gather(
+                    *[objects[k].initialize(relative=-k) for k in two]), 20)
+                collide_rate[0] = 40
         if objects and not parallel and not send_faults and tape.chance("c25/power-cycle", 20):
             # the bus is power-cycled (all station addresses are gone), the program
             # connects again with a new master object and initialises the Terminal
